@@ -48,6 +48,9 @@ ROWS = [
     (0, None, W + ['--frequency-steps=' + '9' * 400, '--frequency-increment=1']),
     (18, 'EOs', W + ['--output-cmdline=/nonexistent-dir/x.pym']),
     (18, 'ENotImpl', W + ['--load=5', '--rlc-load=1,1e-6,', '--attach-load=1,1', '--attach-load=2,2', '--output-basic-input=/nonexistent-dir/x.mini']),
+    (18, 'ENotImpl', W + ['--load=5', '--rlc-load=1,1e-6,', '--attach-load=2,2', '--attach-load=1,1', '--output-basic-input=/nonexistent-dir/x.mini']),
+    (18, 'ENotImpl', W + ['--rlc-load=1,1e-6,', '--attach-load=1,2', '--skin-effect-conductivity=1e6', '--output-basic-input=/nonexistent-dir/x.mini']),
+    (18, 'ENotImpl', W + ['--trap-load=1,1e-6,1e-9', '--attach-load=1,2', '--insulation-load=0.002,2.5', '--output-basic-input=/nonexistent-dir/x.mini']),
     (21, None, W),
 ]
 
